@@ -32,6 +32,13 @@ def correspondence(ctx):
             continue
         items.append((c, out1))
     ctx._items = items
+    # first pass against the model as well (the op order of the pipeline matters for what the second pass sees)
+    runs1 = [pipeline.Run(c["src"], ["topicosvg %d 0 0" % c["ndigits"]]) for c, _ in items]
+    live1 = [(c, r) for (c, _), r in zip(items, runs1) if r.in_wire is not None]
+    for (c, r), m in zip(live1, ctx.model([r.model_line() for _, r in live1])):
+        why = r.compare(m)
+        if why:
+            dis.append({"what": "first pass: %s" % why, "kind": "pipeline1", "input": c})
     runs = [pipeline.Run(out1, ["topicosvg %d 0 0" % c["ndigits"]]) for c, out1 in items]
     outs = ctx.model([r.model_line() for r in runs])
     nontrivial = 0
@@ -81,6 +88,20 @@ def search(ctx, disagreements):
         correspondence(ctx)
         items = ctx._items
     found = []
+    if ctx.escalate:
+        # the tie broke: look harder for a document on which a second pass changes something
+        SVG = pipeline.impl()
+        extra = []
+        for _ in range(500 if ctx.thorough() else 260):
+            c = c01.gen_case(ctx.rng)
+            if ctx.rng.random() < 0.5:
+                c["kind"], c["src"] = pipeline.gen_doc(ctx.rng, ctx.rng.choice(["cascade", "all", "hostile"]))
+            c["allow_text"] = c["drop_unsupported"] = False
+            o, out1 = common.outcome_of(lambda: SVG.fromstring(c["src"]).topicosvg(ndigits=c["ndigits"]).tostring())
+            if o == "ok":
+                extra.append((c, out1))
+        ctx.count("escalated-cases", len(extra))
+        items = list(items) + extra
     for c, out1 in items:
         why, out2 = check_idem(c, out1)
         ctx.count("idempotence-checked")
